@@ -31,13 +31,14 @@ def cases(rng, tier):
         x = x0 + (x1 - x0) * Fraction(k, 16)
         yield {"fun": rng.choice(FUNCS), "x": str(x), "x0": str(x0), "y0": str(rng.dyadic()), "x1": str(x1),
                "y1": str(rng.dyadic()), "exp": rng.choice([1, 2, 3, 0.05, 0.5, 1.5, 2.5, 5])}
-    for _ in range({"quick": 1, "thorough": 6}.get(tier, 1)):
+    for i in range({"quick": 2, "thorough": 6}.get(tier, 1)):
         # a few intervals with thousands of samples each (far beyond the documented range of n): the shapes are the same
-        c = R.gen_case(rng, strategies=["expfixed", "expadaptive", "linfixed"], max_m=3, max_n=24)
+        c = R.gen_case(rng, strategies=["expfixed", "expadaptive"] if i < 2 else ["expfixed", "expadaptive", "linfixed"],
+                       max_m=3, max_n=24)
         c.update({"n": rng.choice([4096, 6000, 8192]), "alpha": "1", "a": None, "objhist": "same", "call": "keyword",
                   "argrep": "plain", "layout": "contig,contig,contig", "hist": "none"})
         if c["strategy"].startswith("exp"):
-            c.update({"beta": rng.choice(["0", "1/4"]), "exp": rng.choice([1, 3, 3, 4])})
+            c.update({"beta": rng.choice(["0", "1/4"]), "exp": rng.choice([3, 3, 4])})
         if "smooth" in c:
             c["smooth"] = 1
         yield c
